@@ -14,6 +14,8 @@ func init() {
 	evals["gcmtls"] = evalGcmtls
 	evals["gfmul"] = evalGfmul
 	evals["ghash"] = evalGhash
+	evals["gfmulb"] = evalGfmul // same Go result, compared with the byte-level Lean model
+	evals["ghashb"] = evalGhash
 	gens["C12"] = genC12
 }
 
@@ -230,9 +232,12 @@ func genC12(r *rng, tier string, emit func(string)) {
 	for i := 0; i < n; i++ {
 		x, y := r.block16(), r.block16()
 		emit("gfmul " + hx(x) + " " + hx(y))
+		emit("gfmulb " + hx(x) + " " + hx(y))
 	}
 	for i := 0; i < n/3; i++ {
-		emit(fmt.Sprintf("ghash %s %s %s", hx(r.block16()), hx(r.bytes(r.intn(50))), hx(r.bytes(r.intn(50)))))
+		gh := fmt.Sprintf("%s %s %s", hx(r.block16()), hx(r.bytes(r.intn(50))), hx(r.bytes(r.intn(50))))
+		emit("ghash " + gh)
+		emit("ghashb " + gh)
 	}
 	// additional data and plaintext lengths 0..maxL exhaustively
 	step := 1
